@@ -139,13 +139,40 @@ fn is_ijson(v: &Value) -> bool {
         _ => true,
     }
 }
-pub fn same_shape_pub(a: &Value, b: &Value) -> bool { same_shape(a, b) }
-fn same_shape(a: &Value, b: &Value) -> bool {
+/// the exact integer denoted by a number text, if it denotes one of moderate size
+/// (handles exponent/fraction spellings such as `1.8446744073709551615e19`)
+fn exact_int(t: &str) -> Option<i128> {
+    let (neg, rest) = match t.strip_prefix('-') { Some(r) => (true, r), None => (false, t) };
+    let (mant, exp) = match rest.find(|c| c == 'e' || c == 'E') { Some(i) => (&rest[..i], rest[i + 1..].parse::<i64>().ok()?), None => (rest, 0) };
+    let (ip, fp) = match mant.split_once('.') { Some((a, b)) => (a, b), None => (mant, "") };
+    let mut digits: String = format!("{}{}", ip, fp);
+    let mut e10 = exp - fp.len() as i64;
+    while e10 < 0 && digits.ends_with('0') { digits.pop(); e10 += 1; }
+    if e10 < 0 { return if digits.chars().all(|c| c == '0') { Some(0) } else { None }; }
+    if e10 > 40 { return None; }
+    for _ in 0..e10 { digits.push('0'); }
+    let digits = digits.trim_start_matches('0');
+    if digits.len() > 38 { return None; }
+    let v: i128 = if digits.is_empty() { 0 } else { digits.parse().ok()? };
+    Some(if neg { -v } else { v })
+}
+pub fn same_shape_pub(a: &Value, b: &Value) -> bool { same_shape_x(a, b, true) }
+fn same_shape(a: &Value, b: &Value) -> bool { same_shape_x(a, b, false) }
+/// `exact_ints`: additionally a 64-bit integer literal must stay the very same integer (C18);
+/// canonicalization (C09/C10) goes through doubles by specification, so it does not ask for that.
+fn same_shape_x(a: &Value, b: &Value, exact_ints: bool) -> bool {
     // canonicalization changes only number spellings and member order
     match (a, b) {
-        (Value::Number(x), Value::Number(y)) => x.as_str().parse::<f64>().ok().map(|f| f.to_bits() | (1 << 63)) == y.as_str().parse::<f64>().ok().map(|f| f.to_bits() | (1 << 63)),
-        (Value::Array(x), Value::Array(y)) => x.len() == y.len() && x.iter().zip(y).all(|(p, q)| same_shape(p, q)),
-        (Value::Object(x), Value::Object(y)) => x.len() == y.len() && x.entries().iter().all(|e| y.get(e.key.as_str()).any(|w| same_shape(&e.value, w))),
+        // same double (IEEE equality identifies -0 and 0, as RFC 8785 does); and a 64-bit integer
+        // literal must stay the very same integer
+        (Value::Number(x), Value::Number(y)) => {
+            let int = |t: &str| t.parse::<i128>().ok().filter(|i| *i >= i64::MIN as i128 && *i <= u64::MAX as i128);
+            let fx = x.as_str().parse::<f64>().ok();
+            let fy = y.as_str().parse::<f64>().ok();
+            fx.is_some() && fx == fy && match int(x.as_str()) { Some(i) if exact_ints && i.unsigned_abs() >= (1u128 << 53) => exact_int(y.as_str()) == Some(i), _ => true }
+        }
+        (Value::Array(x), Value::Array(y)) => x.len() == y.len() && x.iter().zip(y).all(|(p, q)| same_shape_x(p, q, exact_ints)),
+        (Value::Object(x), Value::Object(y)) => x.len() == y.len() && x.entries().iter().all(|e| y.get(e.key.as_str()).any(|w| same_shape_x(&e.value, w, exact_ints))),
         (p, q) => p == q,
     }
 }
